@@ -488,12 +488,14 @@ class MarkdownNormalizer(Renderer):
 
     def render_html_block(self, element: block.HTMLBlock) -> str:
         self._skip_next_blank_line = False
+        self._suppress_item_break = False
         result = f"{self._prefix}{element.body}"
         self._prefix = self._second_prefix
         return result
 
     def render_thematic_break(self, _element: block.ThematicBreak) -> str:
         self._skip_next_blank_line = False
+        self._suppress_item_break = False
         result = f"{self._prefix}* * *\n"
         self._prefix = self._second_prefix
         return result
@@ -693,6 +695,7 @@ class MarkdownNormalizer(Renderer):
         """
         # Reset the skip flag since we're not rendering a blank line
         self._skip_next_blank_line = False
+        self._suppress_item_break = False
         lines: list[str] = []
         head, *body = element.children
         # Every table line carries the container prefix (quote marker, list indent); the first
